@@ -1,5 +1,5 @@
 """C01 — relation-based timing."""
-from . import progs, streamcheck
+from . import common, progs, streamcheck
 
 PROP = 'C01'
 
@@ -14,6 +14,7 @@ SPEC = streamcheck.StreamSpec(
     n_quick=1200, n_thorough=40000,
     nontrivial=nontrivial,
     evalcheck=True,
+    extra_check=lambda oc, tier, seed: common.pysem_stage(oc, PROP, ['timing'], seed, tier),
     rule='random build programs over all 26 operation classes (relation to an earlier handle p=0.45, foreign handle '
          'p=0.05, nesting, counts 1-3 fixed/registry, global-duration overrides, registry durations incl. 0); '
          'listing/times/duration observed at random points and at the end; non-trivial = explicit relations of >= 2 '
